@@ -28,7 +28,8 @@ B == 0 .. NB - 1
 (* One tick as a function: bg[i] = [last, running], `at` the position      *)
 (* considered first, t the instant, n requests.                            *)
 (***************************************************************************)
-Due(b, t) == t - b.last >= ST /\ ~ b.running
+DueAt(b, t, st) == t - b.last >= st /\ ~ b.running
+Due(b, t) == DueAt(b, t, ST)
 Order(at) == [k \in 1 .. NB |-> (at + k - 1) % NB]
 \* walk over the background coroutines in order; r = [bg, room, adm]
 RECURSIVE Walk(_, _, _, _)
